@@ -16,7 +16,7 @@ import networkx as nx
 
 from common import Atom, Case, Run, call_impl, prepare, enc_graph, sx, parse_sx, dec_label, build
 
-PROOFS = ["FGVerif.Proofs.C12"]
+PROOFS = ["FGVerif.Proofs.C12", "FGVerif.Proofs.GraphWF", "FGVerif.Proofs.C12Forest"]
 
 # hand-written (the harness must not read the table it is checking)
 TABULATED = ["Be", "Mg", "Ca", "Sr", "Ba", "B", "Al", "Ga", "In", "Tl", "C", "Si", "Sn", "Pb",
